@@ -124,7 +124,7 @@ def param_maps(o):
             continue
         v = o.p.get(pd.name, pd.default)
         if v is parameters.NoDefault:
-            v = "<unset>"
+            v = None      # I2: None is the database's marker for "no value"; unset and None are the same observation
         if pd.name in dimnames:
             if isinstance(v, tuple) and len(v) == 2 and hasattr(v[0], "getDimension"):
                 dims[pd.name] = {"link": "%s.%s" % (v[0].name, v[1]), "value": canon(v[0].getDimension(v[1]))}
@@ -933,9 +933,11 @@ def run(rep, tier, seed):
     rep.exhaustive = True
     if not _SELFTEST:
         # 1. the design: layout algebra over all small trees; database histories over the 9-node reactor
-        res = tlc.run("Layout_mc", "Layout_mc%s.cfg" % sfx, MODDIR, want_prints=False, timeout=3000)
+        # (no -coverage here: TLC's per-expression counters make the recursive layout operators ~50x slower; the model has
+        # one action, non-vacuity = number of distinct trees)
+        res = tlc.run("Layout_mc", "Layout_mc%s.cfg" % sfx, MODDIR, want_prints=False, timeout=3000, coverage=False)
         _tlc_verdict(rep, "exhaustive:Layout_mc%s.cfg" % sfx, res)
-        if res.coverage.get("AddChild", (0, 0))[1] == 0 or res.distinct < 1000:
+        if res.distinct < 1000:
             raise tlc.MachineryError("vacuous: Layout_mc explored %d trees" % res.distinct)
         # quick: invariants without coverage counters (3x faster), actions' non-vacuity from a small separate run
         res = tlc.run("DbState_mc", "DbState_mc%s.cfg" % sfx, MODDIR, want_prints=False, timeout=3000, coverage=thorough)
